@@ -67,6 +67,46 @@ SHORT = {
     'C20-agent1': 'addEdge becomes a perfect-forwarding template: braced labels as in examples/ stop compiling',
     'C20-agent2': '_isSystemBigEndian loses `inline`: two TUs including fileio.hpp do not link',
     'C20-agent3': 'LabeledEdge alias goes through std::decay: the documented CTAD form `LabeledDirectedGraph graph(labeledEdges)` no longer deduces',
+    'C01-agent4': 'addEdge of labelled directed graphs decides "already present" from the label table, and the table is skipped for empty label classes (re-add of a present edge appends a duplicate; label type = empty class other than NoLabel)',
+    'C02-agent4': 'undirected removeDuplicateEdges marks seen neighbours with a one-byte stamp per list (wraps at 256 vertices: a duplicate-free graph with >= 256 vertices loses half-edges of vertex 255, 511, ...)',
+    'C03-agent4': 'addReciprocalEdge decides from one hasEdge scan and inserts both orientations unchecked (label of the reverse orientation overwritten when only it existed)',
+    'C04-agent4': 'DirectedMultigraph::removeVertexFromEdgeList takes a map-walking fast path when the map has fewer than size/64 entries and forgets totalEdgeNumber (>= 128 vertices, few edges)',
+    'C05-agent4': 'UndirectedWeightedGraph::getEdgeWeight memoises its last lookup under the pair as passed, mutators invalidate under (min,max) (read (j,i), mutate, read (j,i))',
+    'C06-agent4': 'hasEdge of labelled classes answers from the label table when the list has > 64 entries; the undirected operator== calls it with i > j (g == g false on hubs with > 64 neighbours)',
+    'C07-agent4': 'resize allocates geometrically and assertVertexInRange checks against the allocated capacity (an index between size and capacity is accepted)',
+    'C08-agent4': 'directed Edges::begin() memoises the first vertex with an out-edge, validated only by the edge count (traverse, remove+add, traverse)',
+    'C09-agent4': 'getReversedGraph cached; every mutator drops the cache except setEdgeLabel (reverse, relabel, reverse)',
+    'C10-agent4': 'undirected addEdge looks in the label table when the smaller endpoint has > 64 neighbours (NoLabel: table empty, so subgraphs of hubs get every edge twice)',
+    'C11-agent4': 'BFS visit marks in one per-thread buffer shared by all instantiations, the stamp giving them meaning is per instantiation (searches on two graph classes in one thread)',
+    'C12-agent4': 'Dijkstra skips vertices whose 16-bit "expanded in call #" stamp equals the current call id; never cleared, wraps after 65536 calls',
+    'C13-agent4': 'VertexCountMapper keeps its name table behind a shared_ptr and the default argument became a namespace-scope prototype (second named load in a process continues the first numbering)',
+    'C14-agent4': 'unlabelled binary writer gathers 8192 edges per block and flushes a full block with the edge count instead of the value count (> 8192 edges: half of every full block missing)',
+    'C15-agent4': 'undirected addEdge lost its range assertion and the unlabelled binary loader grows the graph from max(index+1) in 32-bit arithmetic (index 0xFFFFFFFF after an ordinary record writes out of bounds)',
+    'C16-agent4': 'same fast path as C06-agent4, seen through "deduplicated graph == graph built without force" on undirected labelled hubs',
+    'C17-agent4': 'DirectedMultigraph::setEdgeMultiplicity reads the multiplicity through find()->second (forced duplicate, removal leaving one list entry without record, then setEdgeMultiplicity: past-the-end dereference)',
+    'C18-agent4': 'UndirectedWeightedGraph::getTotalWeight() const lazily rebuilds the mutable total after 16384 weight updates (first readers after a long update history race)',
+    'C19-agent4': 'BFS queue thread_local and reused, findGeodesics returns early leaving the frontier in it (next search starts from stale entries: more scans, wrong distances)',
+    'C20-agent4': 'io::swapBytes goes through an unsigned integer of the same width, defined for 1, 2, 4, 8 bytes only (binary routines with default arguments do not compile for other label widths)',
+    'C01-agent5': 'directed Edges::begin() returns end() when the last vertex index is 0 (one-vertex graph with its self-loop: in-degrees and matrix empty)',
+    'C02-agent5': 'container constructor of LabeledUndirectedGraph inserts with force=true (a pair listed twice is stored twice)',
+    'C03-agent5': 'label-less addEdge(i,j) of labelled directed graphs no longer stores the default label (getEdgeLabel throws for an existing edge)',
+    'C04-agent5': 'UndirectedMultigraph::setEdgeMultiplicity creates an absent pair by hand: a self-loop lands twice in its own list',
+    'C05-agent5': 'container constructor of DirectedWeightedGraph inserts with force=true (repeated pair: duplicate entry, last weight, total too high for good)',
+    'C06-agent5': 'container constructor of DirectedMultigraph inserts with force=true (repeated pair not merged: != the graph built by addMultiedge)',
+    'C07-agent5': 'getEdgeLabel / getEdgeWeight(i, j, throwIfInexistent=false) return the default before checking the indices',
+    'C08-agent5': 'labelled binary writer returns before opening the file when the graph has no edge (no file, or the old content stays)',
+    'C09-agent5': 'hand-written copy assignment of UndirectedMultigraph clears first and has no self-assignment guard (g = g empties the graph)',
+    'C10-agent5': 'hand-written move operations of the base class forget the label table (getSubgraphWithRemap moves its result: labels lost)',
+    'C11-agent5': 'findAllGeodesics takes an "adjacent vertices" shortcut before the source == destination test ([v, v] instead of [v] on a vertex with a self-loop)',
+    'C12-agent5': 'UndirectedWeightedGraph::setEdgeWeight on an existing edge keys the table as named (larger endpoint first: stale weight, Dijkstra on the stale graph)',
+    'C13-agent5': 'text loader inserts with force=false (a graph with duplicate list entries does not round-trip)',
+    'C14-agent5': 'same early return as C08-agent5, seen through file length, round trip and the unopenable-path clause',
+    'C15-agent5': 'line tokenizer marked noexcept still calls substr(npos) for one token followed by blanks (std::terminate)',
+    'C16-agent5': 'undirected removeEdge converts erased list entries to edges with (entries+1)/2 (k >= 2 forced copies of a self-loop: count too high)',
+    'C17-agent5': 'DirectedWeightedGraph::totalWeight initialised only in the size constructor (container constructor: uninitialised read)',
+    'C18-agent5': 'writeTextEdgeList writes to <stem>.tmp and renames (writers to distinct files sharing a stem collide; no memory-level race)',
+    'C19-agent5': 'Dijkstra relaxes on <= (ties re-push: scans grow with the number of shortest paths, zero-weight cycles never terminate)',
+    'C20-agent5': 'operator<< of LabeledDirectedGraph streams the label (a struct label without operator<< no longer compiles)',
 }
 
 CONSEQUENCE = {
@@ -92,6 +132,32 @@ CONSEQUENCE = {
     'C17-agent3': 'missed: vertex arguments were always locals -> rmvtx / removeEdge / removeMultiedge / setEdgeMultiplicity are also called with references into the graph\'s own neighbour lists',
     'C19-agent3': 'missed: all C19 weights were integers -> k/7 weights and the `fanin` family (hub improved m times, fan-out L, non-dyadic weights) added',
     'C20-agent3': 'missed: the catalogue always spelled the label type -> CTAD constructor snippets (C++17 and later) added',
+    'C01-agent4': 'caught through the empty-class label kind (added after round 3) in C01',
+    'C02-agent4': 'missed: the vertices of the 129-700 job almost never included 255 / 511 -> 10 % of the vertex values are taken next to word-size boundaries',
+    'C04-agent4': 'caught through the 129-700-vertex job added for it',
+    'C05-agent4': 'caught through the read-modify-read probe added for it (hasEdge + getter on both orientations right before and right after each pair operation)',
+    'C06-agent4': 'caught, but the 66-80-vertex pairs took 2000 CPU-s -> light observation for them',
+    'C08-agent4': 'missed by C08 (C01 caught it through the new sparse observation) -> history job with observation after every 1st-5th mutation added to C08',
+    'C09-agent4': 'caught through the conversions-inside-histories job added for it',
+    'C10-agent4': 'missed by C10 (C02 caught it through `fill`) -> `hub` graphs with 66-100 vertices and index-range subsets in C10',
+    'C11-agent4': 'missed: a process searched thousands of times on every class, the coincidence of stamps needs the first searches -> job that runs each case in a forked child of a process that never searched, as three classes in a generated order',
+    'C12-agent4': 'missed -> 2.4 % of the cases repeat a validated search after 2^8-1 / 2^16-1 searches that never reach its source (C11, C12, C19); first version chose a source without out-edges, now one that reaches something',
+    'C13-agent4': 'found, but reported as "broken" (the failing case passes alone) -> failures that replay clean are re-run with a trail, replayed as a sequence in one process and minimised (section 3.0); the replay file holds 2 cases',
+    'C14-agent4': 'missed: files had <= 70 records -> files of 8000-14000 records (`dense`)',
+    'C15-agent4': 'missed: indices >= 65536 were outside the generated domain -> 0xFFFFFFFF (no allocation) admitted to the fuzz target (seeds, dictionary) and spliced in at every record boundary of the cut-offset job',
+    'C16-agent4': 'missed by C16 (C06 caught it) -> `fill` in the 33-80-vertex jobs of C16',
+    'C17-agent4': 'missed twice: C17 had no sequence outside the domains of C01-C16 -> `safety_only` stream (all mutators after forced duplicates, no model comparison); then too rare -> "same pair as the previous operation" selector in every history generator',
+    'C18-agent4': 'missed: shared objects were freshly built -> 0-70000 value updates on the shared object before the readers start',
+    'C19-agent4': 'caught by C11 only -> the C19 counts are taken after pair searches; a runaway child (38 GB) showed that forked children need a watchdog (section 6.10)',
+    'C02-agent5': "reported by C09, not by C02: the container constructors are C09's subject, the histories of C02 start from the size constructor (the author of the change noted the same about its scope)",
+    'C05-agent5': 'as C02-agent5: reported by C09 (constructor with a pair listed twice vs adding one at a time)',
+    'C06-agent5': "missed by C06 as it stood (C09 caught it) -> `xcopy` in the histories of C06, C09 and C17: the graph is rebuilt through the container constructor from the model's edges, a third of the pairs listed twice",
+    'C09-agent5': 'missed as it stood: no self-assignment anywhere -> `xcopy` also does a copy round trip, a self-assignment through a reference and a move round trip, inside histories of all eight classes',
+    'C11-agent5': 'the C11 / C19 executor did not compile against it (exit 2, "broken", not a report): the instrumented graph type offered only the members the searches used until then -> the counting wrappers derive from the graph classes and shadow getOutNeighbours',
+    'C12-agent5': 'missed by C12 as it stood (C05 caught it): graph-shaped cases were built with addEdge only -> construction histories also set values through setEdgeWeight / setEdgeMultiplicity / setEdgeLabel, in the orientation generated',
+    'C13-agent5': 'missed as it stood: the graphs of the text round trip had no duplicate list entries ("any graph") -> 8 % forced entries',
+    'C17-agent5': 'missed by the quick tier as it stood (no construction from a container in the streams; valgrind runs in the thorough tier only) -> `xcopy` in the C17 streams; reported through the model comparison of the stream (total weight -nan)',
+    'C18-agent5': 'missed as it stood: the per-thread file names differed in the stem -> names that differ only in the extension (shard.0, shard.1) or only in the last character of the stem, chosen per case',
 }
 
 REVERTS = [
@@ -130,28 +196,42 @@ that found it originally.
 
 ### 9.2 Changes written by independent sub-agents (`seeded/<id>/`)
 
-%d changes, three per property, each written by a fresh sub-agent that was given
+%d changes, five per property, each written by a fresh sub-agent that was given
 only the text of one property and its own scratch worktree (nothing from
 `/verif`); the agents of the second and third round were additionally told, in
 one line each, what the earlier ones had done and asked for something unrelated,
 the third round also for something "hard to trigger by randomly generated small
-inputs". For each one `seeded/<id>/` holds `patch.diff`, the agent's `demo.cpp`
+inputs", the fourth and fifth for the kinds of change named below. For each one `seeded/<id>/` holds `patch.diff`, the agent's `demo.cpp`
 and `notes.txt`, and `meta.json` (what it needs to manifest, what was run, the
 outcome). Confirmed for all of them by `tools/mutant_run.py` and
 `tools/confirm_demos.py`: the patch applies, the 364 tests pass with it,
 `demo.cpp` exits non-zero with the patch and 0 without.
 
 **All %d are now reported by the quick tier of the property they target** (seed 1).
-%d of them were *not* (or not reliably) caught by the version of the checks that
-existed when they were written; the last column says what was changed in the
-machinery because of them - in every case by widening the generator or the set
-of observations, never by special-casing the change. (The miss rate did not go
-down from round to round - 5, 6 and 11 - because the later agents were asked for
-subtler changes; it is the honest measure of what such checks still overlook.)
+47 of them were *not* (or not reliably, or only by the check of another property)
+caught by the version of the checks that existed when they were written; the last
+column says what was changed in the machinery because of them - in every case by
+widening the generator or the set of observations, never by special-casing the
+change. The miss rate did not go down from round to round - 5, 6, 11, 16 and 9
+of 20 - because the later agents were asked for subtler changes: the fourth round
+was asked for changes that need *accumulated state*, a *word-size threshold*
+(64 neighbours, 256 vertices, 8192 records, 2^14 updates, 2^16 calls), *two
+cooperating sites* or *an order of three different operations on one object*. It
+is the honest measure of what such checks overlook: a quick tier of ten thousand
+small random cases finds none of those unless the generator has a dimension for
+it. What the fourth round added are such dimensions (section 3.0) - size classes,
+long update histories, call counts at word boundaries, fresh processes, several
+classes per thread, operations that stay on one pair - not cases. The fifth round
+was asked for seldom-used entry points, overloads and argument forms and for
+combinations of two features; what it added are value-semantics operations inside
+histories (copy, self-assignment, move, rebuilding through a container
+constructor), setters in the construction histories of the graph-shaped cases,
+duplicate entries in the round-trip graphs and file names that differ only in
+their extension.
 
 | id | change | reported by | consequence for the machinery |
 |---|---|---|---|
-''' % (n, n, missed) + "\n".join(rows) + '''
+''' % (n, n) + "\n".join(rows) + '''
 
 Lessons that generalise beyond the individual changes: (1) *value alphabets
 must include the extremes of the declared types* - weights with full mantissas,
@@ -164,10 +244,18 @@ what `hasEdge`/`getEdgeLabel` cannot, so they belong in "observably identical";
 (3) *a harness that computes its reference result first can hide exactly the
 defect it looks for* (warm caches, initialised statics), so for C18 the code
 under test runs first, in a fresh process, and for C14 some IO happens before
-`main()`; (4) *how* an argument is passed is part of the input: a vertex index
+`main()`, and for C11/C12 one job runs every case in a child of a process that
+never searched; (4) *how* an argument is passed is part of the input: a vertex index
 handed over as a reference into the graph's own lists is a valid call that a
 by-value harness never makes; (5) documentation is an input too: the CTAD form
-and the braced labels only existed in comments and examples.
+and the braced labels only existed in comments and examples; (6) *a threshold
+in the code needs a dimension in the generator*: "more than 64 neighbours", "256
+vertices", "8192 records", "65536 calls" are unreachable for any number of
+small cases, and cheap once there is a size class, a `fill`, a `churn` or a call
+counter for them; the thresholds worth a dimension are the word sizes; (7) *the
+unit of reproduction is the process, not the case*: state kept between calls makes
+the thousandth case fail and the same case pass alone, so a failure that does not
+replay is first retried as the sequence that led to it.
 
 '''
     p = os.path.join(ROOT, 'DESIGN.md')
